@@ -6,5 +6,8 @@ EXTENDS Powder, Json
 VARIABLE hist
 GenInit == Init /\ hist = <<>>
 GenNext == Next /\ hist' = Append(hist, last')
-Emit == (ops = MaxOps) => PrintT(<<"BEH", ToJson([v0 |-> v0, T0 |-> T0, ops |-> hist])>>)
+\* ... and, as an epilogue, what the ammunition must report at every temperature once it is switched ON in its final state
+\* (whatever the modifier went through: set, calibrated while off, calibrated again)
+Emit == (ops = MaxOps) => PrintT(<<"BEH", ToJson([v0 |-> v0, T0 |-> T0, ops |-> hist,
+                                                   final |-> {<<T, VelAt(v0, T0, mod, TRUE, T)>> : T \in Temps}])>>)
 =============================================================================
